@@ -698,9 +698,37 @@ func runG10(r *Repo, rep *Report) {
 	reach := reachFirstIter(g, info, fi.Decl.Body, stop)
 	bad := false
 	body := &Body{Pkg: fi.Pkg, Sig: fi.Fn.Type().(*types.Signature), Type: fi.Decl.Type}
+	// a package without listed files has no directory (G26): returning at once is the only thing to do
+	noFiles := map[*ast.ReturnStmt]bool{}
+	ast.Inspect(fi.Decl.Body, func(n ast.Node) bool {
+		ifs, ok := n.(*ast.IfStmt)
+		if !ok || ifs.Else != nil {
+			return true
+		}
+		be, ok := ast.Unparen(ifs.Cond).(*ast.BinaryExpr)
+		if !ok || be.Op != token.EQL || exprStr(be.Y) != "0" {
+			return true
+		}
+		c, ok := ast.Unparen(be.X).(*ast.CallExpr)
+		if !ok || exprStr(c.Fun) != "len" || len(c.Args) != 1 {
+			return true
+		}
+		if t := info.TypeOf(c.Args[0]); t == nil || !(strings.HasSuffix(t.String(), "ast.File") || strings.HasSuffix(t.String(), "derive.fileInfo")) {
+			return true
+		}
+		for _, st := range ifs.Body.List {
+			if ret, ok := st.(*ast.ReturnStmt); ok {
+				noFiles[ret] = true
+			}
+		}
+		return true
+	})
 	for b := range reach {
 		for _, n := range b.Nodes {
 			if ret, ok := n.(*ast.ReturnStmt); ok && returnsNilError(body, ret) {
+				if noFiles[ret] {
+					continue
+				}
 				bad = true
 				rep.fail(Finding{Rule: "G10", Key: "G10|success-without-print-or-delete", Where: []string{r.pos(ret.Pos())},
 					Msg: "generatePackage can return success without having written (Print) or removed (Delete) derived.gen.go on the way: the old file survives, so the result depends on what it held"})
@@ -1219,6 +1247,12 @@ func g23UnresolvedReported(r *Repo, rep *Report) {
 				}
 				return false
 			case token.EQL:
+				// a package without files has no calls at all
+				if c, ok := ast.Unparen(x.X).(*ast.CallExpr); ok && truth && isZero(x.Y) && exprStr(c.Fun) == "len" && len(c.Args) == 1 {
+					if t := info.TypeOf(c.Args[0]); t != nil && (strings.HasSuffix(t.String(), "ast.File") || strings.HasSuffix(t.String(), "derive.fileInfo")) {
+						return true
+					}
+				}
 				return truth && ((lenOfU(x.X) && isZero(x.Y)) || (lenOfU(x.Y) && isZero(x.X)))
 			case token.NEQ, token.GTR:
 				return !truth && lenOfU(x.X) && isZero(x.Y)
@@ -1286,5 +1320,76 @@ func g23UnresolvedReported(r *Repo, rep *Report) {
 	}
 	if !bad {
 		rep.pass("G23")
+	}
+}
+
+// g26DirectoryKnown — the derived file's path is filepath.Join(pkg.fullpath, derivedFilename) and fullpath is the directory of the
+// package's first listed file. A package without listed files (a directory that holds nothing but a stale derived.gen.go, which
+// the loader hides) has no directory: Print/Delete would then address `derived.gen.go` relative to the working directory — the
+// file of another package. In generatePackage every call of (*pkg).Print and (*pkg).Delete must be dominated by a guard that
+// leaves the function when the package has no files (`len(….Files) == 0` / `len(fileInfos) == 0` with a returning body).
+func g26DirectoryKnown(r *Repo, rep *Report) {
+	fi := r.lookup("derive.(*program).generatePackage")
+	if fi == nil {
+		rep.fail(Finding{Rule: "G26", Key: "G26|directory|missing", Kind: "undecided", Msg: "(*program).generatePackage not found"})
+		return
+	}
+	info := fi.Pkg.TypesInfo
+	g := newGraph(fi.Decl.Body, func(*ast.CallExpr) bool { return true })
+	var guards []*ast.IfStmt
+	ast.Inspect(fi.Decl.Body, func(n ast.Node) bool {
+		ifs, ok := n.(*ast.IfStmt)
+		if !ok || ifs.Else != nil || !stmtsTerminate(ifs.Body.List) {
+			return true
+		}
+		be, ok := ast.Unparen(ifs.Cond).(*ast.BinaryExpr)
+		if !ok || be.Op != token.EQL || exprStr(be.Y) != "0" {
+			return true
+		}
+		c, ok := ast.Unparen(be.X).(*ast.CallExpr)
+		if !ok || exprStr(c.Fun) != "len" || len(c.Args) != 1 {
+			return true
+		}
+		t := info.TypeOf(c.Args[0])
+		if t == nil {
+			return true
+		}
+		ts := t.String()
+		if strings.HasSuffix(ts, "ast.File") || strings.HasSuffix(ts, "derive.fileInfo") {
+			guards = append(guards, ifs)
+		}
+		return true
+	})
+	n, bad := 0, false
+	ast.Inspect(fi.Decl.Body, func(m ast.Node) bool {
+		call, ok := m.(*ast.CallExpr)
+		if !ok {
+			return true
+		}
+		fn, ok := callee(info, call).(*types.Func)
+		if !ok || (funcKey(fn) != "derive.(*pkg).Print" && funcKey(fn) != "derive.(*pkg).Delete") {
+			return true
+		}
+		n++
+		dominated := false
+		for _, gd := range guards {
+			if g.posDominates(gd.Cond.Pos(), call.Pos()) {
+				dominated = true
+			}
+		}
+		if !dominated {
+			bad = true
+			rep.fail(Finding{Rule: "G26", Key: "G26|directory|" + fn.Name() + "-without-files", Where: []string{r.pos(call.Pos())},
+				Msg: "generatePackage can reach (*pkg)." + fn.Name() + " for a package without listed files: its directory is unknown, so the path is `derived.gen.go` relative to the working directory and the derived file of whatever package lives there is overwritten or deleted (goderive ./sub, where sub holds only a stale derived.gen.go, deletes ./derived.gen.go)"})
+		}
+		return true
+	})
+	rep.analysed("print_delete_sites", n)
+	if n < 2 {
+		rep.fail(Finding{Rule: "G26", Key: "G26|directory|floor", Kind: "undecided", Where: []string{r.pos(fi.Decl.Pos())}, Msg: "fewer Print/Delete calls in generatePackage than confirmed by hand"})
+		return
+	}
+	if !bad {
+		rep.pass("G26")
 	}
 }
